@@ -25,6 +25,9 @@ class Contract:
         self.params = kw.pop("params", {})          # name -> type (incl. self, closure variables)
         self.returns = kw.pop("returns", None)
         self.requires = _lst(kw.pop("requires", []))
+        # preconditions of the *body* that only matter for non-virtual calls (super().m(...), Class.m(self, ...));
+        # a virtual call on a receiver of a subclass that overrides m runs the override instead
+        self.requires_direct = _lst(kw.pop("requires_direct", []))
         self.ensures = _lst(kw.pop("ensures", []))
         self.raises = kw.pop("raises", {})           # ExcName -> dict(when=str, ensures=[...])
         self.modifies = _lst(kw.pop("modifies", []))   # 'Class.field' or 'Class.field@expr'
